@@ -176,6 +176,18 @@ void lm(Ctx &c) {
     if (single_with_unknown || sc.uparams.size() >= 2 || correlated || itlimit <= 3) c.nontrivial();
     // with error weighting the exact data are still exact: same bound
     check_solution(c, sc, run, std::max(ptol, ettol), kappa, "LM");
+    // "tightening the tolerances tightens the result": the same instance with both tolerances / 100 must, if it
+    // converges within the limit, meet the correspondingly tighter bound
+    if (itlimit > 3 && c.chance(1, 3)) {
+        Runner run2(c, sc); run2.create(); run2.alloc();
+        long double p2 = ptol / 100, e2 = ettol / 100;
+        PBT_CHECK(c, vnacal_new_set_p_tolerance(run2.vnp, (double)p2) == 0 && vnacal_new_set_et_tolerance(run2.vnp, (double)e2) == 0 && vnacal_new_set_iteration_limit(run2.vnp, itlimit) == 0, "C02.knobs", "setters failed");
+        if (m_error) { double nf = 1e-6; PBT_CHECK(c, vnacal_new_set_m_error(run2.vnp, nullptr, 1, &nf, nullptr) == 0, "C02.set_m_error", "set_m_error failed"); }
+        for (auto &st : sc.stds) PBT_CHECK(c, run2.add(st) == 0, "C02.add_refused", "add refused on the second run: %s", run2.log.text().c_str());
+        run2.log.clear(); errno = 0;
+        if (vnacal_new_solve(run2.vnp) == 0) { c.label("tightened:ok"); check_solution(c, sc, run2, std::max(p2, e2), kappa, "LM-tightened"); }
+        else { PBT_CHECK(c, errno == EDOM, "C02.failure_report", "tightened run failed with errno %d", errno); c.label("tightened:failed"); }
+    }
 }
 
 } // namespace
